@@ -4,15 +4,21 @@
     Operation [99] is the final drop of the object: its result is what the harness measures
     while dropping ([keys dropped; values dropped; double drops; live tracked objects; live
     heap blocks allocated by the object; poison damage]). *)
-From VF Require Import Base Iter Enc Lru LruStep.
+From VF Require Import Base Iter Enc Lru LruStep Slru TwoQ Arc CacheStep.
 
 Inductive ustate :=
 | UDead
-| ULru (s : lru).
+| ULru (s : lru)
+| USlru (s : slru)
+| UTwoQ (s : twoq)
+| UArc (s : arc).
 
 Definition uinit (kind : Z) (cfg : list Z) : option ustate :=
   match kind with
   | 0 => option_map ULru (linit cfg)
+  | 1 => option_map USlru (sinit cfg)
+  | 2 => option_map UTwoQ (qinit cfg)
+  | 3 => option_map UArc (ainit cfg)
   | _ => None
   end.
 
@@ -21,6 +27,9 @@ Definition uretained (s : ustate) : nat :=
   match s with
   | UDead => 0%nat
   | ULru s => llen s
+  | USlru s => (llen (prob s) + llen (prot s))%nat
+  | UTwoQ s => (llen (recent s) + llen (frequent s) + llen (ghost s))%nat
+  | UArc s => (llen (t1 s) + llen (b1 s) + llen (t2 s) + llen (b2 s))%nat
   end.
 
 Definition drop_out (n : nat) : list Z := [zn n; zn n; 0; 0; 0; 0].
@@ -38,6 +47,9 @@ Definition ustep (s : ustate) (op : list Z) : option (ustate * list Z * list Z) 
     match s with
     | UDead => None
     | ULru s => lift ULru (lstep_enc s op)
+    | USlru s => lift USlru (sstep_enc s op)
+    | UTwoQ s => lift UTwoQ (qstep_enc s op)
+    | UArc s => lift UArc (astep_enc s op)
     end
   end.
 
@@ -45,4 +57,7 @@ Definition usnap (s : ustate) : list Z :=
   match s with
   | UDead => []
   | ULru s => lsnap s
+  | USlru s => ssnap s
+  | UTwoQ s => qsnap s
+  | UArc s => asnap s
   end.
